@@ -3,6 +3,7 @@ package crash
 import (
 	"encoding/base64"
 	"fmt"
+	"os"
 	"strings"
 	"time"
 
@@ -28,6 +29,8 @@ type Sweep struct {
 	R        *ev.Run
 	Prop     string
 	Deadline time.Duration
+	// EntryDeadline overrides Deadline for CPU-only entry points whose normal cost is microseconds
+	EntryDeadline map[string]time.Duration
 	pending  *Pending
 	idx      int
 	replay   *ReplayCase
@@ -37,13 +40,17 @@ type Sweep struct {
 	stop     bool
 	perEntry map[string]int64
 	ranCase  bool
+	samples  int
 }
 
 func NewSweep(r *ev.Run, prop string) *Sweep {
-	s := &Sweep{R: r, Prop: prop, Deadline: 10 * time.Second, pending: NewPending(), hung: map[string]bool{}, perEntry: map[string]int64{}}
+	s := &Sweep{R: r, Prop: prop, Deadline: 10 * time.Second, pending: NewPending(), hung: map[string]bool{}, perEntry: map[string]int64{}, EntryDeadline: map[string]time.Duration{}}
 	var rc ReplayCase
 	if r.ReplayCase(&rc) {
 		s.replay = &rc
+	} else if os.Getenv("VERIF_REPLAY") != "" {
+		// the replayed case belongs to another part of the check: nothing to do here
+		s.replay = &ReplayCase{Entry: "\x00other-part"}
 	}
 	return s
 }
@@ -69,6 +76,13 @@ func (s *Sweep) WantEntry(entry string) bool {
 
 // Stopped reports that the wall budget is used up.
 func (s *Sweep) Stopped() bool { return s.stop }
+
+// FirstShard tells whether this worker is the one that runs the entry points that are not sharded
+// (cheap ones whose possible non-termination must not be multiplied over all workers).
+func (s *Sweep) FirstShard() bool {
+	i, _ := s.R.Shard()
+	return i == 0 || s.replay != nil
+}
 
 // Mine is the shard filter for callers that shard on an outer index themselves (pairs).
 func (s *Sweep) Mine(i int) bool { return s.replay != nil || s.R.Mine(i) }
@@ -119,7 +133,11 @@ func (s *Sweep) Case(entry, desc string, sharded, store bool, prep func() ([]byt
 	if store {
 		s.pending.Set(entry, desc, input)
 	}
-	res = Call(s.Deadline, f)
+	deadline := s.Deadline
+	if d, ok := s.EntryDeadline[entry]; ok {
+		deadline = d
+	}
+	res = Call(deadline, f)
 	if store {
 		s.pending.Clear()
 	}
@@ -151,7 +169,7 @@ func (s *Sweep) Case(entry, desc string, sharded, store bool, prep func() ([]byt
 		// reproduce: the statement is about non-termination, a single slow call proves nothing
 		n := 1
 		for k := 0; k < 2; k++ {
-			if again := Call(s.Deadline, f); again.TimedOut {
+			if again := Call(deadline, f); again.TimedOut {
 				n++
 			} else {
 				break
@@ -159,9 +177,11 @@ func (s *Sweep) Case(entry, desc string, sharded, store bool, prep func() ([]byt
 		}
 		if n == 3 {
 			s.R.Outcome(entry + ":TIMEOUT")
-			s.R.Violation(s.Prop+"|"+entry+"|timeout", fmt.Sprintf("%s did not return within %s (reproduced 3x) [case %s]", entry, s.Deadline, truncate(desc, 120)), mk())
+			s.R.Violation(s.Prop+"|"+entry+"|timeout", fmt.Sprintf("%s did not return within %s (reproduced 3x) [case %s]", entry, deadline, truncate(desc, 120)), mk())
 			s.hung[entry] = true
-			s.R.NotExhaustive("entry point " + entry + " abandoned after a reproduced time-out")
+			// the abandoned goroutines keep running (and possibly allocating): end this worker's sweep as soon as possible
+			s.stop = true
+			s.R.NotExhaustive("sweep of this worker ended after a reproduced time-out in " + entry)
 		} else {
 			s.R.Observation("inconclusive-timeout:"+entry, map[string]any{"desc": desc, "timeouts": n})
 			s.R.NotExhaustive("a call exceeded its deadline once but did not reproduce (inconclusive): " + entry)
@@ -177,6 +197,10 @@ func (s *Sweep) Case(entry, desc string, sharded, store bool, prep func() ([]byt
 			o = o[:i]
 		}
 		s.R.Outcome(entry + ":" + truncate(o, 40))
+		if s.samples < 3 && s.Calls%97 == 1 {
+			s.samples++
+			s.R.Sample(map[string]any{"entry": entry, "case": desc, "input": truncate(string(input), 300), "outcome": o})
+		}
 	}
 	return res, true
 }
